@@ -199,7 +199,11 @@ def gen_case(seed):
 
 
 def cases():
-    return st.integers(0, 2 ** 62).map(gen_case)
+    # four 16-bit draws: Hypothesis favours small / boundary integers, a single
+    # wide integer repeats ~12% of the seeds across shards, this one < 1%
+    word = st.integers(0, 2 ** 16 - 1)
+    return st.tuples(word, word, word, word).map(
+        lambda w: gen_case(w[0] | w[1] << 16 | w[2] << 32 | w[3] << 48))
 
 
 def parts(tier):
